@@ -1353,8 +1353,12 @@ func (e *Entry) FixChoice() {
 					Name:   ce.Name,
 					Kind:   CaseEntry,
 					Prefix: ce.Prefix,
-					Dir:    map[string]*Entry{ce.Name: ce},
-					Extra:  map[string][]interface{}{},
+					// The case is part of the text that placed ce
+					// here: if an augment did, it is the augmenting
+					// module's.
+					namespace: ce.namespace,
+					Dir:       map[string]*Entry{ce.Name: ce},
+					Extra:     map[string][]interface{}{},
 				}
 				ce.Parent = ne
 				e.Dir[k] = ne
